@@ -597,6 +597,43 @@ pub fn run(args: &Args) -> i32 {
                 None => rec.count("near_break_even_searches_without_hit", 1),
             }
         }
+        // a block with one match that is discarded (stored raw: noise with a single 8 byte repeat), then a block whose
+        // only sequence has the same literal length code and the same offset code (and really compresses): whatever the
+        // compressor remembered from the discarded block (entropy tables for the sequence codes, offsets) is unknown
+        // to the decoder
+        for k in 0..6usize {
+            let p = r.usize(33_000, 60_000);
+            let d = r.usize(32_800, p);
+            let mut data: Vec<u8> = Vec::new();
+            if k % 2 == 1 {
+                // a kept compressed block in front (other code histograms)
+                data.extend(wl::gen(&mut r, Shape::Text, BLOCK));
+            }
+            let mut b1 = r.bytes(BLOCK);
+            let src: Vec<u8> = b1[p - d..p - d + 8].to_vec();
+            b1[p..p + 8].copy_from_slice(&src);
+            data.extend(b1);
+            let mut b2 = r.bytes(p);
+            for _ in 0..20_000 {
+                let b = b2[b2.len() - d];
+                b2.push(b);
+            }
+            data.extend(b2);
+            if k >= 4 {
+                // and once more: discarded, then kept
+                let mut b3 = r.bytes(BLOCK);
+                let src: Vec<u8> = b3[p - d..p - d + 8].to_vec();
+                b3[p..p + 8].copy_from_slice(&src);
+                data.extend(b3);
+                let mut b4 = r.bytes(p);
+                for _ in 0..9_000 {
+                    let b = b4[b4.len() - d];
+                    b4.push(b);
+                }
+                data.extend(b4);
+            }
+            directed.push(("discarded_block_then_same_codes".into(), vec![FrameJob { data, level: 1, pattern: vec![usize::MAX], what: format!("noise with one 8 byte repeat after {p} literals at distance {d}, then {p} literals and a long match at the same distance") }]));
+        }
         for k in 0..6 {
             let (data, what) = raw_literals_then_same_stats(&mut r, k % 2 == 1);
             directed.push(("raw_literals_in_compressed_block".into(), vec![FrameJob { data, level: 1, pattern: vec![usize::MAX], what }]));
